@@ -1,3 +1,4 @@
+import P2PVerif.Model.Varint
 /-! Runtime library for the definitions that `harness/cmd/go2lean` regenerates from /repo's Go source on every
     run (`P2PVerif/Gen/Src.lean`).  Core Lean only.
 
@@ -131,61 +132,56 @@ def leadingZeros8 (b : UInt8) : Int :=
   if b ≥ 128 then 0 else if b ≥ 64 then 1 else if b ≥ 32 then 2 else if b ≥ 16 then 3
   else if b ≥ 8 then 4 else if b ≥ 4 then 5 else if b ≥ 2 then 6 else if b ≥ 1 then 7 else 8
 
-/-! ### encoding/binary (hand-written after the standard library; the correspondence streams compare them) -/
+/-! ### encoding/binary
+
+The big-endian accessors are written arithmetically; `Uvarint`/`PutUvarint` are the hand-written model
+`Model/Varint.lean`, which the `mux` correspondence stream compares with the real encoding/binary on every run. -/
 
 def beU16 (b : Bytes) : M UInt16 :=
   match b with
-  | b0 :: b1 :: _ => pure (b1.toUInt16 ||| (b0.toUInt16 <<< 8))
+  | b0 :: b1 :: _ => pure (UInt16.ofNat (b0.toNat * 256 + b1.toNat))
   | _ => throw .index
 
 def beU32 (b : Bytes) : M UInt32 :=
   match b with
   | b0 :: b1 :: b2 :: b3 :: _ =>
-    pure (b3.toUInt32 ||| (b2.toUInt32 <<< 8) ||| (b1.toUInt32 <<< 16) ||| (b0.toUInt32 <<< 24))
+    pure (UInt32.ofNat (((b0.toNat * 256 + b1.toNat) * 256 + b2.toNat) * 256 + b3.toNat))
   | _ => throw .index
 
 def beU64 (b : Bytes) : M UInt64 :=
   match b with
   | b0 :: b1 :: b2 :: b3 :: b4 :: b5 :: b6 :: b7 :: _ =>
-    pure (b7.toUInt64 ||| (b6.toUInt64 <<< 8) ||| (b5.toUInt64 <<< 16) ||| (b4.toUInt64 <<< 24) |||
-          (b3.toUInt64 <<< 32) ||| (b2.toUInt64 <<< 40) ||| (b1.toUInt64 <<< 48) ||| (b0.toUInt64 <<< 56))
+    pure (UInt64.ofNat (((((((b0.toNat * 256 + b1.toNat) * 256 + b2.toNat) * 256 + b3.toNat) * 256 + b4.toNat) * 256
+      + b5.toNat) * 256 + b6.toNat) * 256 + b7.toNat))
   | _ => throw .index
+
+def byteOf (n : Nat) : UInt8 := UInt8.ofNat (n % 256)
 
 /-- `binary.BigEndian.PutUint16(b, v)`: the new contents of `b` -/
 def bePutU16 (b : Bytes) (v : UInt16) : M Bytes :=
-  if b.length < 2 then throw .index else pure ((v >>> 8).toUInt8 :: v.toUInt8 :: b.drop 2)
+  if b.length < 2 then throw .index else pure (byteOf (v.toNat / 256) :: byteOf v.toNat :: b.drop 2)
 
 def bePutU32 (b : Bytes) (v : UInt32) : M Bytes :=
   if b.length < 4 then throw .index
-  else pure ((v >>> 24).toUInt8 :: (v >>> 16).toUInt8 :: (v >>> 8).toUInt8 :: v.toUInt8 :: b.drop 4)
+  else pure (byteOf (v.toNat / 16777216) :: byteOf (v.toNat / 65536) :: byteOf (v.toNat / 256) :: byteOf v.toNat :: b.drop 4)
 
 def bePutU64 (b : Bytes) (v : UInt64) : M Bytes :=
   if b.length < 8 then throw .index
-  else pure ((v >>> 56).toUInt8 :: (v >>> 48).toUInt8 :: (v >>> 40).toUInt8 :: (v >>> 32).toUInt8 ::
-             (v >>> 24).toUInt8 :: (v >>> 16).toUInt8 :: (v >>> 8).toUInt8 :: v.toUInt8 :: b.drop 8)
+  else pure (byteOf (v.toNat / 72057594037927936) :: byteOf (v.toNat / 281474976710656) :: byteOf (v.toNat / 1099511627776) ::
+             byteOf (v.toNat / 4294967296) :: byteOf (v.toNat / 16777216) :: byteOf (v.toNat / 65536) ::
+             byteOf (v.toNat / 256) :: byteOf v.toNat :: b.drop 8)
 
 def maxVarintLen64 : Int := 10
 
-/-- `binary.Uvarint`, after encoding/binary/varint.go -/
-def uvarintAux : Bytes → (i : Nat) → (x : UInt64) → (s : Nat) → UInt64 × Int
-  | [], _, _, _ => (0, 0)
-  | b :: bs, i, x, s =>
-    if i = 10 then (0, -((i : Int) + 1))
-    else if b < 0x80 then
-      if i = 9 ∧ b > 1 then (0, -((i : Int) + 1)) else (x ||| shl64 b.toUInt64 s, (i : Int) + 1)
-    else uvarintAux bs (i + 1) (x ||| shl64 (b &&& 0x7f).toUInt64 s) (s + 7)
-
-def uvarint (b : Bytes) : UInt64 × Int := uvarintAux b 0 0 0
+/-- `binary.Uvarint`: value and the number of bytes read (0: buffer too small, negative: overflow) -/
+def uvarint (b : Bytes) : UInt64 × Int :=
+  match Varint.get (b.map UInt8.toNat) with
+  | .ok v n => (UInt64.ofNat v, (n : Int))
+  | .short => (0, 0)
+  | .overflow i => (0, -((i : Int) + 1))
 
 /-- the bytes `binary.PutUvarint` writes -/
-def uvarintBytes (x : UInt64) : Bytes :=
-  if h : x < 0x80 then [x.toUInt8] else (x.toUInt8 ||| 0x80) :: uvarintBytes (x >>> 7)
-termination_by x.toNat
-decreasing_by
-  have h1 : ¬ x.toNat < 128 := by simpa [UInt64.lt_iff_toNat_lt] using h
-  simp only [UInt64.toNat_shiftRight]
-  have : (7 : UInt64).toNat % 64 = 7 := by decide
-  rw [this, Nat.shiftRight_eq_div_pow]; omega
+def uvarintBytes (x : UInt64) : Bytes := (Varint.put x.toNat).map byteOf
 
 /-- `binary.PutUvarint(buf, x)`: the new contents of `buf` and the number of bytes written; index fault when
     `buf` is too short -/
